@@ -262,7 +262,13 @@ func (g *progGen) cleanupBody(depth int) []*SX {
 	var out []*SX
 	n := 1 + r.intn(3)
 	for i := 0; i < n; i++ {
-		switch r.intn(8) {
+		switch r.intn(9) {
+		case 8:
+			if r.chance(1, 2) {
+				out = append(out, L(A("skip"))) // a cleanup that panics with invalid data: the rest of its body does not run
+				continue
+			}
+			out = append(out, L(A("emit"), N(int64(10+r.intn(40)))))
 		case 0:
 			if depth > 0 {
 				out = append(out, L(append([]*SX{A("cleanup")}, g.cleanupBody(depth-1)...)...))
